@@ -154,7 +154,10 @@ func (s *objectStore) flush(db *DB) (err error) {
 }
 
 type DB struct {
-	l       sync.RWMutex
+	l sync.RWMutex
+	// sl protects schemas, which are loaded lazily by calls holding
+	// only the read lock, as well as the start of async writes routines
+	sl      sync.RWMutex
 	ctx     context.Context
 	cancel  context.CancelFunc
 	root    string
@@ -291,6 +294,9 @@ func (db *DB) safeAsyncWState(s *Schema) (n, threshold int, timeout time.Duratio
 
 func (db *DB) schema(of Object) (s *Schema, err error) {
 	var ok bool
+
+	db.sl.Lock()
+	defer db.sl.Unlock()
 
 	if s, ok = db.schemas[stype(of)]; ok {
 		db.startAsyncWritesRoutine(s)
